@@ -6,9 +6,14 @@ Everything *declarative* in the source is translated: replace chains, regex char
 and pattern shapes, constants, tables.  The Lean proofs quote these definitions, so a `lake
 build` after this step re-proves the theorems against what the code says now.
 
-Control flow is not translated (it is hand-modelled and tied by the correspondence run); for
-every hand-modelled function an AST fingerprint is written to Gen/fingerprints.json so that a
-changed function body escalates the correspondence volume (it is never a violation by itself).
+Function BODIES of arithmetic / string-formatting code (the `to_ical` methods listed in
+tools/py2lean.py TARGETS) are translated too, by tools/py2lean.py, into Gen/Bodies.lean; theorems
+prove each regenerated body equal to the hand model (lean/ICal/Lemmas/Bodies.lean).
+
+All other control flow is not translated (it is hand-modelled and tied by the correspondence
+run); for every hand-modelled function an AST fingerprint is written to Gen/fingerprints.json so
+that a changed function body escalates the correspondence volume (it is never a violation by
+itself).
 
 Usage: extract.py [--src /repo/src/icalendar] [--out /verif/lean/ICal/Gen] [--crosscheck]
 Exit 0: all Gen files written (only rewritten when their content changes).
@@ -22,6 +27,8 @@ import os
 import sys
 
 HERE = os.path.dirname(os.path.abspath(__file__))
+if HERE not in sys.path:
+    sys.path.insert(0, HERE)       # tools/py2lean.py (gen_bodies)
 SRC = os.path.join(os.environ.get('VERIF_REPO', '/repo'), 'src', 'icalendar')
 OUT = os.path.join(HERE, '..', 'lean', 'ICal', 'Gen')
 
@@ -657,9 +664,23 @@ def gen_misc(src):
     return None, fp, {}
 
 
+def gen_bodies(src):
+    """function bodies: tools/py2lean.py (Python subset -> Lean definitions), one `def` per function"""
+    import py2lean
+    try:
+        return py2lean.translate(src)
+    except Exception as e:  # noqa: BLE001
+        # py2lean imports this file as the module `extract`; when this file runs as a script its exception
+        # class is a different object from ours, so the failure is re-raised as the class main() catches
+        if type(e).__name__ == 'Untranslatable':
+            raise Untranslatable(str(e)) from None
+        raise
+
+
 # ---------------------------------------------------------------- driver
 
-GENERATORS = [('Parser.lean', gen_parser), ('Cal.lean', gen_cal), ('Prop.lean', gen_prop), (None, gen_misc)]
+GENERATORS = [('Parser.lean', gen_parser), ('Cal.lean', gen_cal), ('Prop.lean', gen_prop), (None, gen_misc),
+              ('Bodies.lean', gen_bodies)]
 
 
 def write_if_changed(path, content):
